@@ -4,6 +4,7 @@
   `*_required_*`) and C06 (`resume_needs_key`) show they equal the connection's real state.
 -/
 import CedarModel.Dispatch
+import CedarProofs.DecisionsTie
 
 namespace Cedar.C05
 open Cedar Cedar.HS Cedar.Disp
@@ -171,6 +172,18 @@ theorem no_level_never_authorized (s : Server) (a : String → String → Bool) 
     s.satisfies c sess = false := by
   unfold Server.satisfies Server.authorizedFor
   simp [ha, hl, hp]
+
+/-- **levelOK_is_the_code** (tie T): the level test every theorem above uses, `levelOK`, IS the code
+    of `server.commandLevelSatisfied` once the applicable policy object has been selected — for ALL
+    level strings and both session flags it equals `CedarGen.Decisions.commandLevelSatisfied`, which
+    `tools/gen` (trans.go) translates statement by statement from the Go source on every run. -/
+theorem levelOK_is_the_code (p : Policy) (authenticated encrypted : Bool) :
+    levelOK (some p) authenticated encrypted =
+      CedarGen.Decisions.commandLevelSatisfied p.auth p.enc p.integ authenticated encrypted :=
+  Cedar.Tie.levelOK_eq_gen p authenticated encrypted
+
+example : CedarGen.Decisions.commandLevelSatisfied "REQUIRED" "OPTIONAL" "REQUIRED" true false = false := by decide
+example : CedarGen.Decisions.commandLevelSatisfied "" "PREFERRED" "" false false = true := by decide
 
 /-! Non-vacuity (tests). -/
 def srv : Server :=
